@@ -207,6 +207,8 @@ theorem W_updateInflight (fuel : Nat) :
     split
     · exact h
     · split
+      · exact h
+      split
       · split
         · extract_lets m' s1
           have h1 : W s1 := h
@@ -309,6 +311,8 @@ theorem W_connackResend (fuel : Nat) :
     split
     · exact h
     · split
+      · exact h
+      split
       · split
         rename_i s1 rc1 heq
         exact W_of_fst heq (W_loopWrite _)
@@ -356,7 +360,12 @@ theorem W_handleConnack (s : S) (sp : Bool) (result : Nat) (ok : Bool) (h : W s)
   · split
     · split
       · exact h
-      · exact W_reconnect _ _ h
+      · have hr := W_reconnect sr ok h
+        split
+        · rename_i s' heq
+          rw [heq] at hr
+          exact hr
+        · exact hr
     · split
       · exact W_connackResend _ _ _ _ h3
       · split <;> exact h3
